@@ -885,6 +885,93 @@ def probe_streams(cx, rng):
                     'fallback-name-collision: Algebra(3, start_index=6): x = 1*e8; x.e5 does not return 0 although e5 is no blade of the algebra')
 
 
+def direct_extras(R, rng, tier):
+    """Accessors on number-valued multivectors, judged directly: map / filter with builtins and classes (applied to the VALUES, the
+    blade keys never reach them), asfullmv of ndarray-backed multivectors (d >= 4, custom bases), and spellings resolved in an
+    algebra derived with dataclasses.replace after its parent resolved them."""
+    import numpy as np, dataclasses
+    from fractions import Fraction
+    from kingdon import Algebra, MultiVector
+
+    def viol(clause, what, **rep):
+        R.violation({'clause': clause}, dict(rep, extras=True), f'{clause}: {what}')
+    for it in range(12 if tier == 'quick' else 200):
+        d = rng.choice((2, 3, 4))
+        alg = Algebra(d) if it % 3 else Algebra.fromname(rng.choice(['2DPGA', '3DPGA']))
+        canon = [int(k) for k in alg.canon2bin.values()]
+        ks = rng.sample(canon, rng.randint(1, min(5, len(canon))))
+        fl = [rng.choice([-2.51, 1.26, 0.49, 3.5, -0.75, 0.0, 2.0]) for _ in ks]
+        x = MultiVector.fromkeysvalues(alg, tuple(ks), list(fl))
+        xi = MultiVector.fromkeysvalues(alg, tuple(ks), [int(round(v)) for v in fl])
+        R.count('extras=map-filter-builtins'); R.case(('extras-map', it), True)
+        for nm, f, src, want in (('complex', complex, x, [complex(v) for v in fl]), ('abs', abs, x, [abs(v) for v in fl]), ('float', float, xi, [float(int(round(v))) for v in fl]),
+                                 ('Fraction', Fraction, xi, [Fraction(int(round(v))) for v in fl]), ('round', round, x, [round(v) for v in fl]),
+                                 ('str', str, xi, [str(int(round(v))) for v in fl])):
+            try:
+                r = src.map(f)
+                got = list(r.values())
+                if list(r.keys()) != ks or got != want or [type(g) for g in got] != [type(w) for w in want]:
+                    viol('map', f'x.map({nm}) = {got} on keys {list(r.keys())} for values {list(src.values())} on keys {ks} in {alg!r}: the callable must be applied to each value', keys=ks, values=fl, fn=nm)
+            except Exception as e:  # noqa
+                viol('map-raises', f'x.map({nm}) raised {type(e).__name__}: {e} for values {list(src.values())} on keys {ks}'[:300], keys=ks, values=fl, fn=nm)
+        for nm, f in (('bool', bool), ('round', round), ('abs', abs)):
+            try:
+                r = x.filter(f)
+                want = [(k, v) for k, v in zip(ks, fl) if f(v)]
+                if list(zip(r.keys(), r.values())) != want:
+                    viol('filter', f'x.filter({nm}) keeps {list(zip(r.keys(), r.values()))} of {list(zip(ks, fl))} in {alg!r}, expected {want}', keys=ks, values=fl, fn=nm)
+            except Exception as e:  # noqa
+                viol('filter-raises', f'x.filter({nm}) raised {type(e).__name__}: {e}'[:300], keys=ks, values=fl, fn=nm)
+        # asfullmv of ndarray-backed multivectors (1-D: one number per blade; 2-D: three numbers per blade)
+        for shape in ((), (3,)):
+            arr = np.array([[float(rng.randint(-9, 9)) for _ in range(int(np.prod(shape or (1,))))] for _ in ks]).reshape((len(ks),) + shape)
+            xa = MultiVector.fromkeysvalues(alg, tuple(ks), arr)
+            for canonical in (True, False):
+                R.count('extras=asfullmv-ndarray'); R.case(('extras-asfullmv', it, shape, canonical), True)
+                try:
+                    f = xa.asfullmv(canonical=canonical)
+                    want_k = canon if canonical else list(range(len(alg)))
+                    ok = [int(k) for k in f.keys()] == want_k
+                    for k, v in zip(f.keys(), f.values()):
+                        w = arr[ks.index(k)] if k in ks else np.zeros(shape)
+                        try:         # an absent blade may hold the plain number 0
+                            ok = ok and np.array_equal(np.broadcast_to(np.asarray(v, dtype=float), shape), np.broadcast_to(np.asarray(w, dtype=float), shape))
+                        except ValueError:
+                            ok = False
+                    if not ok:
+                        viol('asfullmv', f'asfullmv(canonical={canonical}) of an ndarray-backed multivector with keys {ks} in {alg!r} does not hold the stored coefficients blade by blade: '
+                                         f'{[(int(k), np.asarray(v).tolist()) for k, v in zip(f.keys(), f.values())]}'[:500], keys=ks, values=arr.tolist())
+                except Exception as e:  # noqa
+                    viol('asfullmv-raises', f'asfullmv of an ndarray-backed multivector raised {type(e).__name__}: {e}'[:300], keys=ks)
+    # spellings resolved by a parent algebra, then by an algebra derived from it with another basis (and the other way round)
+    pga_basis = list(Algebra.fromname('3DPGA').basis)
+    for it in range(4 if tier == 'quick' else 40):
+        P = Algebra(3, 0, 1)
+        fresh = Algebra(3, 0, 1, basis=pga_basis)
+        sp = rng.choice(['e230', 'e203', 'e201', 'e310', 'e13', 'e20', 'e321', 'e0123'])
+        vals = {name: float(i + 1) for i, name in enumerate(fresh.canon2bin)}
+        order = rng.random() < 0.5
+        R.count('extras=replace-spellings'); R.case(('extras-replace', it, sp, order), True)
+        try:
+            if order:
+                getattr(P.multivector(name='p'), sp, None); P.multivector(**{sp: 1}) if True else None
+            Q = dataclasses.replace(P, basis=pga_basis)
+            if not order:
+                getattr(Q.multivector(name='q'), sp, None)
+                tgt, ref = P, Algebra(3, 0, 1)
+                vals = {name: float(i + 1) for i, name in enumerate(ref.canon2bin)}
+            else:
+                tgt, ref = Q, fresh
+            got = getattr(tgt.multivector(**vals), sp)
+            want = getattr(ref.multivector(**vals), sp)
+            built_g = tgt.multivector(**{sp: 5.0, 'e1': 2.0}); built_w = ref.multivector(**{sp: 5.0, 'e1': 2.0})
+            if got != want or list(zip(built_g.keys(), built_g.values())) != list(zip(built_w.keys(), built_w.values())):
+                viol('getattr-parity', f'after its {"parent" if order else "derived (dataclasses.replace, 3DPGA basis)"} algebra resolved the spelling {sp}, '
+                                       f'x.{sp} = {got} (fresh algebra: {want}) and multivector({sp}=5, e1=2) = {built_g} (fresh: {built_w})', spelling=sp, order=order)
+        except Exception as e:  # noqa
+            viol('getattr-raises', f'spelling {sp} after dataclasses.replace raised {type(e).__name__}: {e}'[:300], spelling=sp, order=order)
+
+
 def large_algebra_stream(R, rng, tier):
     """d >= 7 (tables of the algebra are built on demand there): the same rejections and round trips, direct oracle only"""
     for d in ((7,) if tier == 'quick' else (7, 7, 8)):
@@ -918,6 +1005,7 @@ def run(R, tier):
     rng = R.rng
     cx = Ctx(R, tier)
     large_algebra_stream(R, rng, tier)
+    direct_extras(R, rng, tier)
     quick = tier == 'quick'
     # 1. every spelling of every blade, d <= 3 exhaustively, sampled above
     above = [rand_spec(rng, 5, graded=False) for _ in range(2 if quick else 30)]
